@@ -101,6 +101,13 @@ def run(ctx):
             broken.append("correspondence c11_mismatches: model and implementation disagree on the outcome class of %s" % json.dumps(csrc[i])[:600])
     elif hr["rc"] == 0 and not outcomes:
         broken.append("harness produced no outcomes")
+    # the model's witnesses must show the class the theorems predict for the repaired tree
+    expect = ["served-ok", "served-ok", "served-ok", "error", "api-error", "served-ok"]
+    wobs = [o["class"] for o in sorted(outcomes, key=lambda r: r["id"]) if o["vkind"] == "witness"]
+    if hr["rc"] == 0 and nwit and wobs != expect[:len(wobs)]:
+        # a crash/hang on a witness is already reported as an oracle failure with its replay
+        if not any(w in ("HANG", "PROCESS-CRASH") for w in wobs):
+            broken.append("replay of the model's witness files: implementation classes %s, the theorems predict %s" % (wobs, expect[:len(wobs)]))
     hist = {}
     for o in outcomes:
         hist["%s/%s" % (o["vkind"], o["class"])] = hist.get("%s/%s" % (o["vkind"], o["class"]), 0) + 1
